@@ -9,6 +9,7 @@ import CifModel.Lemmas.StoreRefineC
 import CifModel.Lemmas.StoreTotalS
 import CifModel.Lemmas.StoreWOk
 import CifModel.Lemmas.StoreRefineW
+import CifModel.Lemmas.StoreSpecRefine
 import CifModel.Lemmas.StoreCodes
 import CifModel.Lemmas.StoreTree
 /-
@@ -1165,6 +1166,31 @@ theorem C04_remove_item_in_wok (w : World) (h : WOk w) (c : Nat) (s : Store) (hs
     (∀ y ∈ s.db.loops, ¬(y.cid = x.cid ∧ y.loopNum = x.loopNum) → absLoop d' y = absLoop s.db y) ∧
     d'.loops = s.db.loops ∧ d'.frames = s.db.frames ∧ d'.blocks = s.db.blocks :=
   removeItem_good s.db (h.good c s hs).db x i j0 hx hi hj0 hne0
+
+-- ---- one refinement theorem over histories (for the ops `specStep` covers so far) ---------------------------------------------------
+
+/-- C04_refines: in a world satisfying WOk, an op that keeps to the documented contract does to the documented model with object
+    identities (`absW`, Spec/StoreSpec: every managed CIF as container tree + loops of (category, items, packets)) exactly what
+    `specStep` says, and returns the same result — with no further hypothesis.  Covered so far (`Op.covered`): cif_loop_add_packet,
+    cif_loop_set_category, cif_loop_destroy; the per-op theorems above cover the other ops container by container. -/
+theorem C04_refines (w : World) (op : Op) (h : WOk w) (hin : inContract w op = true) (hc : op.covered = true) :
+    specStep (absW w) op = some (absW (step w op).1, (step w op).2) :=
+  specStep_refines w op h hin hc
+
+/-- … and over whole histories: a history of covered ops that keeps to the contract, started in a world satisfying WOk (the empty
+    world does: `C04_wok_init`), runs on the documented model exactly as on the store model — same final state under `absW`, same
+    result of every call -/
+theorem C04_refines_hist : ∀ (ops : List Op) (w : World), WOk w → inContractHist w ops = true → ops.all Op.covered = true →
+    specRun (absW w) ops = some (absW (run w ops).1, (run w ops).2)
+  | [], _, _, _, _ => rfl
+  | op :: ops, w, h, hc, hcov => by
+    have hc' : (inContract w op && inContractHist (step w op).1 ops) = true := hc
+    simp only [Bool.and_eq_true] at hc'
+    simp only [List.all_cons, Bool.and_eq_true] at hcov
+    unfold specRun run
+    rw [C04_refines w op h hc'.1 hcov.1]
+    simp only []
+    rw [C04_refines_hist ops (step w op).1 (C04_wok_step w op h hc'.1) hc'.2 hcov.2]
 
 -- ---- failure-code agreement with Spec/DataModel (loop level) ---------------------------------------------------------------------
 
